@@ -136,6 +136,11 @@ func drawC11(t *rapid.T) c11Case {
 			c.Bulk = rapid.IntRange(100, 900).Draw(t, "bulk")
 		}
 	}
+	if c.Bulk > 2000 && (c.Sets[0].Pad > 256 || c.Sets[0].PadFit != 0) {
+		// every route of the bulk carries set 0: with an attribute block of several kilobytes tens of thousands
+		// of routes mean gigabytes of messages in the harness itself
+		c.Bulk = 2000
+	}
 	return c
 }
 
